@@ -150,7 +150,16 @@ class KernelEvalBase2:
         """
         nspin, N0, Nsamp = X0T.shape
         N1 = self.N1
-        if force_polarize and dfdX1.shape[0] == 2 and nspin == 1:
+        if (
+            force_polarize
+            and self.mode == "POL"
+            and dfdX1.ndim == 3
+            and dfdX1.shape[0] == 2
+            and nspin == 1
+        ):
+            # POL mode with a duplicated spin channel: (2, Nsamp, N1) -> (1, Nsamp, N1).
+            # In SEP/NPOL mode dfdX1 is (nspin * Nsamp, N1), and a leading
+            # dimension of 2 just means a batch of two samples.
             dfdX1 = dfdX1[:1]
         if self.mode == "SEP" or self.mode == "POL":
             dfdX0T = np.zeros_like(X0T)
